@@ -7,7 +7,7 @@ numbers, strings, urls, functions, calc, var, IE expressions.  A share of the ou
 braces, empty blocks) because the content filters act exactly there.
 """
 
-IDENTS = ['a', 'b', 'div', 'p', 'x', 'li', 'em', 'body', 'h1', 'td', 'A', 's\\pan']
+IDENTS = ['e\\ ', 'a', 'b', 'div', 'p', 'x', 'li', 'em', 'body', 'h1', 'td', 'A', 's\\pan']
 CLASSES = ['c', 'x', 'main', 'nav-1', 'B']
 PROPS = ['color', 'background', 'margin', 'padding', 'font-family', 'font', 'width', 'height', 'content', 'border',
          'top', 'left', 'display', 'background-color', 'line-height', 'z-index', 'opacity', 'src', 'x', 'foo-bar',
